@@ -252,7 +252,10 @@ class Gen:
 
     def g_chaos(self, w):
         r = self.rng
-        kind = wchoice(r, [("clear_lru", 3), ("clear_sympy", 1), ("alias_handle", 1), ("restart", self.cfg["w_restart"])])
+        kind = wchoice(r, [("clear_lru", 3), ("clear_sympy", 1), ("alias_handle", 1), ("restart", self.cfg["w_restart"]),
+                           ("bulk_parse", 0.4)])
+        if kind == "bulk_parse":
+            return {"k": "bulk_parse", "node": self.pick_node(w), "h": 0, "n": r.choice([40, 300, 700])}
         if kind == "clear_lru":
             names = ["_multiply_units", "_divide_units", "_preserve_units", "_difference_units", "_power_unit",
                      "_sqrt_unit", "_square_unit", "_check_em_conversion", "_reciprocal_unit", "_cbrt_unit"]
@@ -293,6 +296,10 @@ class Gen:
             yield {"k": "quantity", "node": ni, "h": 0, "v": 4.0, "s": r.choice(["m**-1", "1/s", "1/g", "1/m"]), "route": "ctor", "store": True}
             c2 = w.last_stored
             yield {"k": "binop", "f": r.choice(["mul", "mul", "div"]), "x": c1, "y": c2, "store": False}
+        if r.random() < 0.12:
+            # a long quiet stretch: hundreds of OTHER distinct spellings parsed between the warm-up and the edit
+            # (capacity-bounded or generational memo tables behave differently only beyond their capacity)
+            yield {"k": "bulk_parse", "node": ni, "h": 0, "n": r.choice([40, 300, 300, 700, 1500])}
         alias = r.random() < 0.3
         if alias:
             # a second handle on the same table (copy.copy(reg) / the registry of a Unit.copy()): created while
@@ -747,6 +754,21 @@ class Gen:
             return self.g_chaos(w)
 
 
+_BULK = []
+
+
+def bulk_strings():
+    if not _BULK:
+        from unyt._unit_lookup_table import unit_prefixes
+
+        bases = ["m", "s", "g", "K", "Hz", "J", "W", "N", "Pa", "V", "A", "T", "eV", "pc", "yr", "G", "C", "F", "H", "lm"]
+        for pw in ("", "**2", "**-1", "**3"):
+            for b in bases:
+                for p_ in sorted(unit_prefixes):
+                    _BULK.append(p_ + b + pw)
+    return _BULK
+
+
 def make_config(rng, profile):
     r = rng
     c = {
@@ -897,6 +919,22 @@ class Sim:
         self.w.probe("hdf5_stub_roundtrip")
         return unyt.unyt_array.from_hdf5(fn, **kw).units.registry
 
+    def do_bulk_parse(self, op):
+        """n distinct unit strings (SI prefix x built-in symbol x power) constructed against one registry: volume, not
+        content - nothing is compared here; what it changes is the fill level of every memo table."""
+        unyt, lt, dims, uo, ur, us = rw._U()
+        node = self.w.node(op)
+        reg = self.w.handle(op, node)
+        ok = 0
+        for s_ in bulk_strings()[: int(op["n"])]:
+            try:
+                uo.Unit(s_, registry=reg)
+                ok += 1
+            except Exception:  # symbols this registry does not have (edited / empty tables): not the point here
+                pass
+        self.w.probe("bulk_parse_strings", ok)
+        return {"parsed": ok}
+
     def do_alias(self, op):
         unyt, lt, dims, uo, ur, us = rw._U()
         node = self.w.node(op)
@@ -945,6 +983,8 @@ class Sim:
                 rec["out"] = self.do_new_node(op)
             elif k == "alias_handle":
                 rec["out"] = self.do_alias(op)
+            elif k == "bulk_parse":
+                rec["out"] = self.do_bulk_parse(op)
             elif k == "restart":
                 rec["out"] = self.do_restart(op)
             elif k == "clear_lru":
